@@ -164,6 +164,15 @@ def rule_R3(ctx):
             err = T.strip(a[1])
             if fl and err[0] == "agg" and err[3] == "MissingRequiredHeaders":
                 need.add(fl[0])
+        # .. or written out: `let Some(status) = stream.status else { return Err(MissingRequiredHeaders) }`
+        for (rb_, j_, term_, conds_, _split) in TB.return_alternatives(pb, P):
+            tt_ = T.strip(term_)
+            if tt_[0] == "agg" and tt_[3] == "Err" and any(x[0] == "agg" and x[3] == "MissingRequiredHeaders" for x in T.walk(tt_)):
+                for c in conds_:
+                    if c[0] == "variant" and ((c[2] == "None" and c[3]) or (c[2] == "Some" and not c[3])):
+                        fl = [x[2] for x in T.walk(c[1]) if x[0] == "field" and x[2] in want]
+                        if fl:
+                            need.add(fl[0])
         ctx.check(need == req, "R3", fn + ":required", "requires %s" % sorted(req), "%s requires %s, expected %s" % (fn, sorted(need), sorted(req)), ctx.loc(pb))
         # version constant
         vs = {s2["r"]["variant"] for _, _, s2 in pb.iter_stmts() if s2["k"] == "assign" and s2["r"]["k"] == "agg" and s2["r"].get("path", "").endswith("http::Version")}
